@@ -194,3 +194,13 @@ claim("C14", IRJ,
       "violation (52 such instruction forms are recorded as known findings, identified by family:mnemonic:exception).",
       "TLC; single-instruction lifting (Thumb IT prefixes excluded); the byte stream does not depend on VERIF_SEED; sh4 has no lifter",
       "DESIGN.md 5/C14", "IRJudge")
+
+claim("C25", SM,
+      "BinStream.tla: a window at a base address on a byte source that may be patched between instructions; byte, bit-field "
+      "(MSB first) and integer reads (both byte orders) return the current content, reads leaving the source raise IOError, atomic "
+      "(cached) sections; the ghost 'last cached key' makes read-leave-patch-enter-read histories distinct abstract states. TLC "
+      "enumerates every content up to 2 (quick) / 3 bytes and every read inside, across and outside the bounds in every state; each "
+      "edge is replayed on bin_stream_str (patchable buffer), bin_stream_file and bin_stream_vm (VmMngr rebuilt from the working "
+      "tree); recorded random histories over 9-byte sources are validated by TLC.",
+      "TLC; parsed PE/ELF containers are not driven; the source changes only outside atomic sections; no zero-length byte reads",
+      "DESIGN.md 5/C25", "BinStream")
